@@ -24,6 +24,12 @@ CHECKS = {
  "C02": ("exploration", "property-based testing + exhaustive small-matrix enumeration: SortVoting vs subset-DP optimal assignment",
          "Level A: the voting engine on every weight matrix of shape <=3x3 over a grid straddling the threshold (exhaustive) and on random matrices up to 8x8 with shuffled arrival order; the result must be one-to-one over reported pairs, never below the gate, and its total must equal the DP optimum with 'unmatched = threshold'.",
          "Level A totals compared within rows*(2e-6 + 4e-7*max|w|). Level B: Sort / BatchSort histories; before every call the weights are recomputed in f64 from the observable state (posterior boxes, raw Kalman state via the guarded accessor) and the call's continuations must be gated pairs of live tracks with optimal total; calls with a decision within 1e-4 of a threshold are band.", "3/C02"),
+ "C05": ("exploration", "differential property testing under forced worker schedules: 1 shard/free schedule vs k shards/planned interleavings of the Distances commands",
+         "Tie-free generated histories x shard count 1..8 x a plan per predict call that totally orders the Distances commands of all shard workers (gates on the command begin/end schedule points) plus delays; records must equal the 1-shard reference including ids (simple trackers) or up to renaming (batch trackers); wasted/idle sets equal.",
+         "Hook-granularity schedule control (command begin/end), bounded gate waits; comparison cut at calls with a decision margin below 1e-4 (f64 shadow).", "3/C05"),
+ "C06": ("exploration", "differential property testing under forced dispatch/voting orders: batch tracker vs simple tracker per scene; result-shape invariants; watchdog for completion",
+         "Generated batch sequences over 1..5 scenes, 1..4 distance and 1..3 voting workers, caller or drainer-thread retrieval, plans ordering scene dispatch and voting jobs, delays, two shutdown modes. Per scene the batch tracker's records must equal the simple tracker's (bit-equal up to ids); each batch delivers exactly one result per scene with records echoing the detections in order and fresh distinct ids; every case must complete.",
+         "Deadlock freedom for ALL schedules is not established (sampled forced orders on the real code; the explicit-state exploration mentioned in the quantifier is a different technique and is not substituted). A time-out is re-run in a fresh child before being reported.", "3/C06"),
  "C07": ("exploration", "property-based testing: generated predict/update sequences vs dense f64 textbook Kalman filter; exact cost/gate relations",
          "Generated measurement sequences (<=300 steps, seven motion modes) compared step by step with an independent dense f64 filter: mean, covariance (symmetry, SPD by f64 Cholesky, entries), distance against the filter's own state and against the reference; stationary objects; vector filter bit-equal to point filters; cost conversions exact for every generated d incl. +-3 ulp around each chi-square entry.",
          "Tolerances >= 5x measured f32 drift inside the regular envelope (height within x10, <=3 predict-only steps in a row). Outside it only finiteness/SPD/no-panic are asserted and D10 is a listed known finding.", "3/C07"),
